@@ -68,7 +68,8 @@ def _cases(draw):
         k = draw(blade)
         bits = [j for j in range(d) if k >> j & 1]
         spells.append(list(draw(st.permutations(bits))))
-    return {"cfg": cfg, "pairs": [list(p) for p in pairs], "triples": [list(t) for t in triples], "spells": spells, "full": d <= 5}
+    return {"cfg": cfg, "pairs": [list(p) for p in pairs], "triples": [list(t) for t in triples], "spells": spells, "full": d <= 5,
+            "graded": d <= 5 and not cfg.get("named") and draw(st.integers(0, 5)) == 0}
 
 
 def cases(tier):
@@ -127,7 +128,7 @@ def evaluate(case):
     cfg = case["cfg"]
     ref = RefAlgebra(cfg)
     d = ref.d
-    alg = _call(lambda: kd.build_algebra(cfg), "constructible", "Algebra", f"Algebra({cfg})")
+    alg = _call(lambda: kd.build_algebra(cfg, graded=bool(case.get("graded"))), "constructible", "Algebra", f"Algebra({cfg})")
     if len(alg) != 2 ** d:
         raise Violation("constructible", "Algebra", f"len(alg)={len(alg)} for d={d}")
     units = []
@@ -185,6 +186,25 @@ def evaluate(case):
         if got != exp:
             raise Violation("blade-product", "gp", f"{ref.bin2name[I]}*{ref.bin2name[J]} = {got}, Clifford relations give {exp} "
                             f"(signature {ref.sig}, start {ref.start}, basis {cfg.get('basis')})")
+    # the same relations for scaled blades: a blade with coefficient -1 stored next to an explicit zero, and blades scaled by
+    # sympy symbols (s*E_I)*(t*E_J) = s*t*(E_I*E_J) -- also in graded algebras, where blades are complete-grade multivectors
+    import sympy
+    s_, t_ = sympy.symbols("s t")
+    for I, J in case["pairs"][:6]:
+        sg = ref.T(I, J)
+        exp = {I ^ J: sg} if sg else {}
+        if not case.get("graded"):
+            other = next(k for k in range(2 ** d) if k != I) if d else None
+            negI = kd.mk(alg, [I] + ([other] if other is not None else []), [-1] + ([0] if other is not None else []))
+            got = _elem(_call(lambda: negI * B(J), "blade-product", "gp", f"(-{ref.bin2name[I]} + 0*...)*{ref.bin2name[J]}"))
+            if got != {k: -v for k, v in exp.items()}:
+                raise Violation("blade-product", "gp", f"(-1*{ref.bin2name[I]} stored with an explicit zero) * {ref.bin2name[J]} = {got}, "
+                                f"Clifford relations give {dict((k, -v) for k, v in exp.items())} (signature {ref.sig})")
+        sym = _call(lambda: (B(I) * s_) * (B(J) * t_), "blade-product", "gp", f"(s*{ref.bin2name[I]})*(t*{ref.bin2name[J]})")
+        gs = {k: sympy.expand(v) for k, v in kd.to_dict(sym, op="gp").items() if sympy.expand(v) != 0}
+        if gs != {k: sympy.expand(v * s_ * t_) for k, v in exp.items()}:
+            raise Violation("blade-product", "gp", f"(s*{ref.bin2name[I]})*(t*{ref.bin2name[J]}) = {gs}, expected s*t*{exp} "
+                            f"(signature {ref.sig}, graded={bool(case.get('graded'))})")
     # associativity
     triples = case["triples"]
     if triples == "all":
@@ -229,6 +249,8 @@ def evaluate(case):
         labels.append("lazy:d>=7")
     if cfg.get("pqr") is not None:
         labels.append("form:pqr")
+    if case.get("graded"):
+        labels.append("opt:graded")
     if 0 in ref.sig:
         labels.append("sig:degenerate")
     return Info(True, labels, ckey, units=units)
